@@ -46,6 +46,7 @@ type FuncSpec struct {
 	ControlOnly []string     // "control_only T.f, T.g": those fields only ever decide branches, here and in everything reachable in the package
 	Trusted   bool
 	MayPanic  bool
+	DeadReturns []int // "dead_return -k": the k-th return statement from the end (source order) is unreachable (proved, instead of the reachability cover)
 	NoInline  bool
 	Opaque    bool // callers see only contract even if small
 	Flags     map[string]string
@@ -163,7 +164,7 @@ func NewSpecFile() *SpecFile {
 }
 
 var clauseKeywords = map[string]bool{"requires": true, "ensures": true, "invariant": true, "decreases": true,
-	"assigns": true, "preserves": true, "guard": true, "order": true, "reads_fields": true, "control_only": true, "feeds_unchanged": true, "returns_fresh": true, "no_store_through": true, "loop": true, "may_panic": true, "trusted": true, "pure": true, "abstract": true, "axiom": true,
+	"assigns": true, "preserves": true, "guard": true, "order": true, "reads_fields": true, "control_only": true, "feeds_unchanged": true, "returns_fresh": true, "no_store_through": true, "loop": true, "may_panic": true, "dead_return": true, "trusted": true, "pure": true, "abstract": true, "axiom": true,
 	"func": true, "lemma": true, "noinline": true, "opaque": true, "flag": true, "let": true, "may_panic_at": true, "extends": true, "foreach_field": true, "ghost": true, "assert": true}
 
 // ParseSpecFile reads //@ lines from path and adds them to sf.
@@ -441,6 +442,12 @@ func (sf *SpecFile) ParseSpecFile(path string) error {
 				curLoop = nil
 			case "may_panic":
 				cur.MayPanic = true
+			case "dead_return":
+				k, err := strconv.Atoi(strings.TrimSpace(r.text))
+				if err != nil || k >= 0 {
+					return fmt.Errorf("%s: dead_return needs a negative ordinal (-1 = the last return statement in source order)", loc)
+				}
+				cur.DeadReturns = append(cur.DeadReturns, k)
 			case "foreach_field":
 				// foreach_field <Type> [except A,B] ensures <template with $f>
 				txt := strings.TrimSpace(r.text)
